@@ -3,6 +3,8 @@ import BridgeVerif.Driver.Hands
 import BridgeVerif.Driver.Notation
 import BridgeVerif.Model.Session
 import BridgeVerif.Model.Abort
+import BridgeVerif.Model.SeatThread
+import BridgeVerif.Model.MainThread
 /-! Driver ops `X.*` : a session scenario is assembled line by line, then its per-thread programs, log
 records and seat streams are printed, and the canonical (lowest-enabled-first) run is executed. -/
 namespace Bridge.Driver
@@ -110,6 +112,49 @@ def sessionOps (x : XState) (t : List String) : XState × String :=
       let recs := (writesOf (sessionProg x.scenario .main)).take k
       (x, hexOf (logFileText (LogOp.open :: recs.map LogOp.write ++ (if c then [LogOp.close] else []))))
     | _, _ => (x, "bad-op")
+  -- the reactive seat-thread model on given queue / connection streams (comma-separated hex texts)
+  | ["X.react", p, teams, q, c] =>
+    let texts (s : String) : Option (List Text) := if s = "-" then some [] else (s.splitOn ",").mapM unhex?
+    match seat? p, unhex? teams, texts q, texts c with
+    | some p, some teams, some q, some c =>
+      (x, match seatReactive p teams q c with
+          | some acts => " ".intercalate (acts.map showAct)
+          | none => "STUCK")
+    | _, _, _, _ => (x, "bad-op")
+  -- the same on the streams of the loaded scenario: what main puts on the seat's queue and what its client sends
+  | ["X.reactmodel", p] =>
+    match seat? p with
+    | some p =>
+      let sc := x.scenario
+      let q := sendsOn (Chan.m2t p) (sessionProg sc .main)
+      let c := sendsOn (Chan.c2s p) (sessionProg sc (.client p))
+      (x, match seatReactive p (teamsMsg sc.nsName sc.ewName) q c with
+          | some acts => if acts.map showAct == (sessionProg sc (.seat p)).map showAct then "same" else
+              " ".intercalate (acts.map showAct)
+          | none => "STUCK")
+    | none => (x, "bad-op")
+  -- the reactive main-thread model on the streams of the loaded scenario (what the seat threads forward to main)
+  | ["X.mainmodel"] =>
+    let sc := x.scenario
+    let streams : MainIn := fun p => sendsOn (Chan.t2m p) (sessionProg sc (.seat p))
+    (x, match mainReactive sc (sc.boards.map (·.1)) streams with
+        | some acts =>
+          if acts.map showAct == (sessionProg sc .main).map showAct &&
+             (writesOf acts).map showRecord == (writesOf (sessionProg sc .main)).map showRecord then "same"
+          else " ".intercalate (acts.map showAct)
+        | none => "RAISES")
+  -- … and on given streams (per seat: comma-separated hex texts), for the boards of the loaded scenario:
+  -- the actions, then ` ## `-separated records it writes
+  | ["X.mainreact", qn, qe, qs, qw] =>
+    let texts (s : String) : Option (List Text) := if s = "-" then some [] else (s.splitOn ",").mapM unhex?
+    match texts qn, texts qe, texts qs, texts qw with
+    | some qn, some qe, some qs, some qw =>
+      let sc := x.scenario
+      let streams : MainIn := fun p => match p with | .N => qn | .E => qe | .S => qs | .W => qw
+      (x, match mainReactive sc (sc.boards.map (·.1)) streams with
+          | some acts => " ".intercalate (acts.map showAct) ++ " || " ++ " ## ".intercalate ((writesOf acts).map showRecord)
+          | none => "RAISES")
+    | _, _, _, _ => (x, "bad-op")
   | ["X.logops"] =>
     (x, " ".intercalate ((emitsOf (sessionProg x.scenario .main)).map fun o =>
       match o with | .open => "open" | .write _ => "write" | .close => "close"))
